@@ -513,6 +513,7 @@ pub fn generate(r: &mut Rng, opts: &GenOpts) -> Universe {
         }
     }
 
+    let mut shared_hosts: Vec<(String, usize)> = Vec::new();
     for (zi, apex) in apexes.iter().enumerate() {
         let soa_min = *r.pick(&[60u32, 300, 3600]);
         let mut zone = UZone {
@@ -530,19 +531,34 @@ pub fn generate(r: &mut Rng, opts: &GenOpts) -> Universe {
             records: Vec::new(),
         };
         let n_ns = r.range(1, 3) as usize;
+        // some zones are served only by hosts outside themselves (no glue at all)
+        let all_outside = opts.out_of_zone_ns && zi > 1 && r.chance(0.25);
         for k in 0..n_ns {
-            let out_of_zone = opts.out_of_zone_ns && zi > 1 && k > 0 && r.chance(0.4);
+            let out_of_zone = opts.out_of_zone_ns && zi > 1 && (all_outside || (k > 0 && r.chance(0.4)));
             if out_of_zone {
                 // a host in an earlier zone that is not an ancestor of ours
                 let candidates: Vec<usize> = (1..zi)
                     .filter(|&j| !under(apex, &u.zones[j].apex))
                     .collect();
                 if !candidates.is_empty() {
+                    // providers serve several zones: reuse a host another zone
+                    // already names, when there is one
+                    let reusable: Vec<String> = shared_hosts
+                        .iter()
+                        .filter(|(_, j)| candidates.contains(j))
+                        .map(|(h, _)| h.clone())
+                        .filter(|h| !zone.ns.contains(h))
+                        .collect();
+                    if !reusable.is_empty() && r.chance(0.5) {
+                        zone.ns.push(r.pick(&reusable).clone());
+                        continue;
+                    }
                     let j = *r.pick(&candidates);
                     let host = child_name(&format!("xns{zi}{k}"), &u.zones[j].apex);
                     let t = ttl_of(r);
                     let recs = host_records(r, &mut alloc, &host, opts, t);
                     u.zones[j].records.extend(recs);
+                    shared_hosts.push((host.clone(), j));
                     zone.ns.push(host);
                     continue;
                 }
